@@ -507,3 +507,97 @@ R("c07-r-priority-local", ["C07"], [(QCONS, '''        # create a key object and
                         if message.header.properties.priority is None
                         else message.header.properties.priority
                     ),''')])
+
+# ----------------------------------------------------------------------------------------------- C15 / C01 (brokers)
+RBRK = "repid/connections/redis/message_broker.py"
+MBRK = "repid/connections/in_memory/message_broker.py"
+QBRK = "repid/connections/rabbitmq/message_broker.py"
+M("c15-scan-fix-reverted", ["C15"], [(RCONS, "                names.reverse()  # the oldest message is at the end of the list - check it first\n", "")], "R-C15-DISCIPLINE")
+M("c15-new-messages-at-tail", ["C15"], [(RBRK, '''            if not in_front:
+                pipe.lpush(qnc(key.queue, key.priority), mnc(key, short=True))
+            else:
+                pipe.rpush(qnc(key.queue, key.priority), mnc(key, short=True))''', '''            pipe.rpush(qnc(key.queue, key.priority), mnc(key, short=True))''')], "R-C15-DISCIPLINE")
+M("c15-reject-behind", ["C15"], [(RBRK, '''                    delay_until=utils.wait_timestamp(params),
+                    in_front=True,
+                )
+            self.__unmark_processing(key, pipe)
+            await pipe.execute()
+
+    async def requeue''', '''                    delay_until=utils.wait_timestamp(params),
+                )
+            self.__unmark_processing(key, pipe)
+            await pipe.execute()
+
+    async def requeue''')], None)
+M("c15-window-from-head", ["C15"], [(RCONS, '''                    offset - self.PREFETCH_AMOUNT,  # range from the end of the queue
+                    offset - 1,''', '''                    offset,
+                    offset + self.PREFETCH_AMOUNT - 1,''')], "R-C15-DISCIPLINE")
+M("c15-lrem-from-head", ["C15"], [(RCONS, "pipe.lrem(full_queue_name, -1, msg_short_name)", "pipe.lrem(full_queue_name, 1, msg_short_name)")], "R-C15-DISCIPLINE")
+M("c15-inmem-peek-internals", ["C15"], [(MCONS, "            msg = self._queue.simple.get_nowait()\n", "            msg = self._queue.simple._queue.pop()\n            self._queue.simple._unfinished_tasks += 0\n")], "R-C15-INMEM")
+M("c01-inmem-requeue-fix-reverted", ["C01", "C03"], [(MBRK, '''        await asyncio.sleep(0)
+
+        # the held message is replaced without a suspension point in between,
+        # so that a cancellation can not lose it
+        q = self.queues[key.queue]
+        for msg in q.processing:
+            if msg.key.id_ == key.id_:
+                q.processing.remove(msg)
+                break
+        self._put_in_queue(key, payload, params)
+
+        await asyncio.sleep(0)
+''', '''        await self.ack(key)
+        await self.enqueue(key, payload, params)
+''')], "R-C01-ATOMIC")
+M("c01-inmem-nack-no-dead", ["C01"], [(MBRK, "                q.processing.remove(msg)\n                q.dead.append(msg)\n", "                q.processing.remove(msg)\n")], "R-C01-TRANSFER")
+M("c01-inmem-reject-duplicates", ["C01", "C14"], [(MBRK, "                q.processing.remove(msg)\n                q.simple.put_nowait(msg)\n", "                q.simple.put_nowait(msg)\n")], "R-C01-TRANSFER")
+M("c01-inmem-ack-await-in-loop", ["C01"], [(MBRK, '''            if msg.key.id_ == key.id_:
+                q.processing.remove(msg)
+                q.dead.append(msg)''', '''            if msg.key.id_ == key.id_:
+                q.processing.remove(msg)
+                await asyncio.sleep(0)
+                q.dead.append(msg)''')], "R-C01-ATOMIC")
+M("c01-redis-ack-keeps-processing", ["C01", "C03"], [(RBRK, "            pipe.delete(mnc(key))\n            self.__unmark_processing(key=key, pipe=pipe)\n", "            pipe.delete(mnc(key))\n")], "R-C01-TRANSFER")
+M("c01-redis-nack-not-transactional", ["C01"], [(RBRK, '''        async with self.conn.pipeline(transaction=True) as pipe:
+            self.__mark_dead(key, pipe)''', '''        async with self.conn.pipeline(transaction=False) as pipe:
+            self.__mark_dead(key, pipe)''')], "R-C01-ATOMIC")
+M("c01-redis-requeue-two-round-trips", ["C01", "C03"], [(RBRK, '''                in_front=True,
+            )
+            self.__unmark_processing(key, pipe)
+            await pipe.execute()
+
+    async def queue_declare''', '''                in_front=True,
+            )
+            await pipe.execute()
+            self.__unmark_processing(key, pipe)
+            await pipe.execute()
+
+    async def queue_declare''')], "R-C01-ATOMIC")
+M("c01-redis-take-direct-zadd", ["C01", "C14"], [(RCONS, "        pipe.zadd(self.broker.processing_queue, {msg_short_name: str(unix_time())})", "        self.conn.zadd(self.broker.processing_queue, {msg_short_name: str(unix_time())})")], None)
+M("c01-redis-unmark-wrong-member", ["C01"], [(RBRK, "        pipe.zrem(self.processing_queue, mnc(key, short=True))", "        pipe.zrem(self.processing_queue, mnc(key))")], "R-C01-TRANSFER")
+M("c01-rabbit-nack-requeues", ["C01", "C12"], [(QBRK, "await self._channel.basic_nack(delivery_tag, requeue=False)  # will trigger dlx", "await self._channel.basic_nack(delivery_tag)")], None)
+M("c01-rabbit-reject-drops", ["C01", "C03"], [(QBRK, "await self._channel.basic_reject(delivery_tag, requeue=True)", "await self._channel.basic_reject(delivery_tag, requeue=False)")], None)
+M("c01-rabbit-requeue-publish-first", ["C01", "C14"], [(QBRK, "        await self.ack(key)\n        await self.enqueue(key, payload, params)", "        await self.enqueue(key, payload, params)\n        await self.ack(key)")], None)
+M("c01-inmem-consume-add-after-sleep", ["C01", "C14"], [(MCONS, "        self._queue.processing.add(msg)\n\n        await asyncio.sleep(0)\n", "        await asyncio.sleep(0)\n        self._queue.processing.add(msg)\n\n")], None)
+M("c01-outside-writer", ["C01"], [("repid/queue.py", '''    async def flush(self) -> None:
+        await self._conn.message_broker.queue_flush(self.name)''', '''    async def flush(self) -> None:
+        broker = self._conn.message_broker
+        if hasattr(broker, "queues") and self.name in broker.queues:
+            broker.queues[self.name].processing.clear()
+        await self._conn.message_broker.queue_flush(self.name)''')], "R-OWN")
+R("c01-r-inmem-nack-helper", ["C01"], [(MBRK, '''        q = self.queues[key.queue]
+        for msg in q.processing:
+            if msg.key.id_ == key.id_:
+                q.processing.remove(msg)
+                q.dead.append(msg)
+                break
+''', '''        q = self.queues[key.queue]
+        held = None
+        for msg in q.processing:
+            if msg.key.id_ == key.id_:
+                held = msg
+                break
+        if held is not None:
+            q.processing.remove(held)
+            q.dead.append(held)
+''')])
